@@ -5,6 +5,7 @@ import AioslskVerif.Generated.Schemas
 K_C02 driver: everything of `CodecCommon` (`dec …` for K_C02a) plus
   `reader <0|1 obfuscated> <family> <dir> <hex stream|->`
       → `D <idx> <k> v₁ … vₖ | D … | C eof|readError`   (events of `Stream.reader`, decoder = family dispatcher;
+        `readerSilent …`: the same stream followed by silence instead of EOF → `… | C timeout`;
         compressed classes are not used in streams: the driver has no zlib)
   `accept <0|1 obfuscated> <hex stream|-> <known tickets csv|->`  → `established` | `closed eof|readError|requested`
 -/
@@ -16,9 +17,19 @@ def showEvent : Event (Nat × List Val) → String
   | .deliver (i, vs) => String.intercalate " " (s!"D {i} {vs.length}" :: vs.map showVal)
   | .closed .eof => "C eof"
   | .closed .readError => "C readError"
+  | .closed .timeout => "C timeout"
 
 def handle2 (line : String) : String :=
   match (line.splitOn " ").filter (· ≠ "") with
+  | ["readerSilent", obf, fam, dir, hex] =>
+    match parseFamily fam, parseDir dir, fromHex hex with
+    | some fam, some dir, some s =>
+      let z : Zlib := { deflate := id, inflate := fun _ => none }
+      let decode := fun (b : Bytes) => match dispatch z table fam dir b with
+        | .ok r => some r
+        | .error _ => none
+      String.intercalate " | " ((readerSilent (obf = "1") decode s).map showEvent)
+    | _, _, _ => "bad-op"
   | ["reader", obf, fam, dir, hex] =>
     match parseFamily fam, parseDir dir, fromHex hex with
     | some fam, some dir, some s =>
